@@ -137,7 +137,8 @@ Record F1facts (fb : flat) : Prop := {
   f1_has_cross : In FCross (fl_constraints fb) \/ fl_crossings fb = [];
   f1_derivations : derivations_match fb = true;
   f1_exclude_backed : forall p, In p (fl_exclude fb) -> In (FExclude (fst p) (snd p)) (fl_constraints fb);
-  f1_no_excluded_derived : fl_excluded_derived fb = []
+  f1_no_excluded_derived : forall e, In e (fl_excluded_derived fb) ->
+                           exists p, In p (fl_exclude fb) /\ excluded_derived_of fb e p = true
 }.
 
 Lemma nth_error_combine_seq {A} : forall (l : list A) s f x,
@@ -202,7 +203,8 @@ Proof.
   - intros p Hp. unfold exclude_backed in H14. rewrite forallb_forall in H14. specialize (H14 p Hp).
     apply existsb_exists in H14. destruct H14 as [c [Hc Hk]]. destruct c; try discriminate.
     apply andb_true_iff in Hk. destruct Hk as [A B]. apply Nat.eqb_eq in A, B. subst. exact Hc.
-  - unfold no_excluded_derived in H15. destruct (fl_excluded_derived fb); [reflexivity|discriminate].
+  - intros e He. unfold no_excluded_derived in H15. rewrite forallb_forall in H15. specialize (H15 e He).
+    apply existsb_exists in H15. exact H15.
 Qed.
 
 (** * Facts that hold for every flat record *)
